@@ -238,6 +238,11 @@ func checkBounds(c *Ctx, rule string, keep func(s bceSite) bool, contained func(
 			continue
 		}
 		ok, how := autoDischarge(w, s)
+		if !ok && s.Fn != nil && s.Node != nil {
+			if ok2, how2 := liaBounds(w, s.Fn, s.Node); ok2 {
+				ok, how = true, how2
+			}
+		}
 		if !ok {
 			// the index is the result of a search over the very slice that is indexed, entailed not to be "not found"
 			if ok2, _ := checkRequirement(c, w, s, "index-not-minus-one"); ok2 {
